@@ -155,7 +155,7 @@ func masks(nvals int, thorough bool) []int {
 		return []int{0}
 	}
 	all := 1<<nvals - 1
-	if nvals <= 3 || thorough && nvals <= 6 {
+	if nvals <= 6 || thorough && nvals <= 8 {
 		var out []int
 		for m := 0; m <= all; m++ {
 			out = append(out, m)
@@ -247,6 +247,23 @@ func Statements(s *gen.Schema, thorough bool) []gen.Stmt {
 						out = append(out, gen.Stmt{Name: fmt.Sprintf("v%d", k), Kind: "insert", SQL: q, Args: args})
 					}
 				}
+			}
+		}
+	}
+	if s.ID == "s1" {
+		// key column not first, string literal before it
+		k := 0
+		for rows := 1; rows <= 2; rows++ {
+			var tuples []string
+			var vals []interface{}
+			for r := 0; r < rows; r++ {
+				tuples = append(tuples, "(%s, %s, %s)")
+				vals = append(vals, fmt.Sprintf("n%d", r), int64(5+r), 50+r)
+			}
+			for _, m := range masks(len(vals), thorough) {
+				q, args := render("INSERT INTO t_s1 (name, id, cnt) VALUES "+strings.Join(tuples, ", "), vals, m)
+				k++
+				out = append(out, gen.Stmt{Name: fmt.Sprintf("vk%d", k), Kind: "insert", SQL: q, Args: args})
 			}
 		}
 	}
@@ -857,7 +874,7 @@ func evalCase(r *rep.Run, prop string, e *sys.Env, c Case, idx int, texts map[st
 		care = "all"
 	}
 	name := c.Stmt.Name
-	if strings.HasPrefix(name, "g") || strings.HasPrefix(name, "v") {
+	if strings.HasPrefix(name, "g") || strings.HasPrefix(name, "v") || strings.HasPrefix(name, "auto") {
 		name = shapeOf(c.Stmt)
 	}
 	if os.Getenv("VERIF_TRACE") != "" {
